@@ -57,38 +57,8 @@ def forbidden_in(modules):
 
 
 def check_obligations(prop, driver_modules=(), leanchecker=False):
-    ob = pk.Obligations()
-    mod = "Pk.Props.%s" % prop
-    pf = os.path.join(pk.LEAN, "Pk", "Props", "%s.lean" % prop)
-    ob.names = pk.theorem_names(pf)
-    ok, log = pk.lake_build([mod, "pkmodel"])
-    ob.log = log
-    if not ok:
-        errs = re.findall(r"error: ([^\n]*)", log)
-        ob.failed = [(n, "module does not build: " + "; ".join(errs[:3])) for n in ob.names] or [(mod, "module does not build")]
-        return ob
-    mods = set(import_closure(mod))
-    for d in driver_modules:
-        mods.update(import_closure(d))
-    hits = forbidden_in(sorted(mods))
-    if hits:
-        ob.failed = [(n, "forbidden token: " + hits[0]) for n in ob.names]
-        return ob
-    res, _alog = pk.audit_axioms(mod, ob.names)
-    for n in ob.names:
-        ax = res.get(n)
-        if ax is None:
-            ob.failed.append((n, "theorem missing from compiled module"))
-            continue
-        bad = [a for a in ax if a not in pk.ALLOWED_AXIOMS]
-        if bad:
-            ob.failed.append((n, "depends on axioms %s" % bad))
-        ob.axioms.update(ax)
-    if leanchecker and ob.ok:
-        rc, o, e = pk.sh(["lake", "env", "leanchecker", mod], cwd=pk.LEAN, timeout=3600)
-        if rc != 0:
-            ob.failed = [(n, "leanchecker rejected %s: %s" % (mod, (o + e)[-300:])) for n in ob.names]
-    return ob
+    """theorems of Pk/Props/<prop>.lean and of the modules pk.EXTRA_PROPS lists for it"""
+    return pk.check_obligations(prop, extra_modules=driver_modules, leanchecker=leanchecker)
 
 
 # ------------------------------------------------------------------------------------------
